@@ -47,11 +47,11 @@ def install():
     BatteryDistributionAlgorithm._distribute_multi_inverter_pairs = wrapper
 
 
-def make(shape, exponent, sign, boundary=None, reach=False):
+def make(shape, exponent, sign, boundary=None, reach=False, wide_battery=False):
     shape = tuple(tuple(s) for s in shape)
 
     def fn(ex):
-        pairs, groups = dist.build(ex, shape)
+        pairs, groups = dist.build(ex, shape, wide_battery=wide_battery)
         P, dirs = dist.request(ex, groups, sign)
         mag = E(P) * sign
         if boundary == "excl":
@@ -109,6 +109,10 @@ def instances(tier):
         return out
     kw["dump_queries"] = 10
     out += [
+        I("3x(1x1)+wide@excl", "make", (((1, 1),) * 3, 1.0, 1, "excl", False, True), "3 groups, request exactly the advertised exclusion bound; batteries' own limits concrete "
+          "and non-binding, SoC and inverter bounds symbolic (budgeted)", budget_s=900, exhaustive=False, **kw),
+        I("3x(1x1)+wide", "make", (((1, 1),) * 3, 1.0, 1, None, False, True), "3 groups, any admitted request; same restriction (budgeted)", budget_s=900, exhaustive=False, **kw),
+    ] + [
         I("1x2x1-", "make", (s21, 1.0, -1), "2 batteries behind 1 inverter, supply", budget_s=300, **kw),
         I("2x(1x1)-", "make", (g2, 1.0, -1), "2 groups, supply", budget_s=900, **kw),
         I("2x(1x1)+e0", "make", (g2, 0.0, 1), "2 groups, exponent 0", budget_s=900, **kw),
